@@ -55,8 +55,16 @@ class StateEvaluator(QuantifierSimplifier):
             _variable_assignments
         )
         self._state = state
-        r = self.walk(expression)
-        self._variable_assignments = None
+        try:
+            r = self.walk(expression)
+        except Exception:
+            # a failed walk (e.g. a fluent missing in the state) must not leak
+            # partial results computed in this state into the next evaluation
+            self.stack.clear()
+            self.memoization.clear()
+            raise
+        finally:
+            self._variable_assignments = None
         assert r.is_constant()
         return r
 
